@@ -99,6 +99,8 @@ UNIT = {
                 'r is Ok && old(self).cur().action == Action::Ignore ==> final(self).cur().action == Action::Ignore',
                 'r is Ok && !(old(self).cur().action is Command) && option != EnterSubshellOption::Ignore ==> final(self).cur() == old(self).cur()',
                 'r is Ok && option == EnterSubshellOption::Ignore ==> final(self).cur().action == Action::Ignore',
+                # "a signal that was ignored on entry can be neither trapped nor reset": the mark of an inherited ignore survives
+                'r is Ok && old(self).cur().action == Action::Ignore && old(self).cur().origin == Origin::Inherited ==> final(self).cur().action == Action::Ignore && final(self).cur().origin == Origin::Inherited',
                 'r is Ok ==> final(self).internal() == (if option == EnterSubshellOption::KeepInternalDisposition { old(self).internal() } else { Disposition::Default })',
                 # C11: the installed disposition follows
                 'r is Ok && cond is Signal ==> inv(Some(*final(self)), final(system).installed(cond->Signal_0))',
